@@ -14,18 +14,18 @@ CHECKS = {
           "Known findings (rejections of valid C) are listed in known_findings.json and replayed each run.", "Coq table theorems over regenerated tables + whole-parser model correspondence + grammar-directed acceptance search", "6/C01"),
  "C02": P("Proof (Coq): the two nested loops of _parse_binary_expression are sound for the stratified C grammar for operator sequences of any length and any precedence function (climb_sound); the regenerated precedence table is C99's level assignment; assignment operators complete. The abstract loops are tied to CParser._parse_binary_expression at its own entry point, the whole expression ladder through the whole-parser model correspondence; the direct oracle compares every generated expression tree (3 renderings x 9 contexts) with the implementation's AST.",
           "The cast/unary/postfix ladder, ?: and assignment right recursion are covered by correspondence and oracle, not yet by theorems.", "Coq proof (climbing soundness, table theorems) + component and whole-parser correspondence", "6/C02"),
- "C03": P("Proof (Coq), partial: kernel-computed theorems on the whole-pipeline model for the inside-out declarator rule, shared specifiers and _Atomic(T); the multi-declarator _Atomic(...) case is refuted with a witness (known finding). All derivation sequences x contexts are explored by the generator whose expected chains come from an independent reading of C99 6.7.5, with the whole-parser model tied by correspondence.",
-          "Unbounded theorems about _type_modify_decl / _fix_decl_name_type are not yet proved.", "Coq kernel-computed theorems on the parser model + correspondence + declarator oracle", "6/C03"),
- "C04": P("Proof (Coq): algebraic laws of the scope stack for all names and stacks (lookup after declare, other names untouched, fresh scope transparent, inner hides outer, undeclared is not a type, same-scope clash raises). The history-level statement is explored: generated declaration histories probed with sizeof(NAME) after every event against the generator's own C scoping, whole-parser model tied by correspondence.",
+ "C03": P("Proof (Coq): _type_modify_decl splices the modifier chain between a declarator chain and its TypeDecl for chains of ANY length (modify_splice: pointer prefixes and array/function suffixes compose in C's inside-out order); kernel-computed theorems on the whole-pipeline model for the inside-out declarator rule, shared specifiers and _Atomic(T); the multi-declarator _Atomic(...) case is refuted with a witness (known finding). All derivation sequences x contexts are explored by the generator whose expected chains come from an independent reading of C99 6.7.5, with the whole-parser model tied by correspondence.",
+          "_fix_decl_name_type / _build_declarations are covered by correspondence and oracle, not yet by unbounded theorems.", "Coq kernel-computed theorems on the parser model + correspondence + declarator oracle", "6/C03"),
+ "C04": P("Proof (Coq): scope_refines - for EVERY history of scope entries, exits and declarations the stack-of-dictionaries model answers exactly as C's block-scope rule read off the history (nearest declaration still in scope, scanning backwards over closed blocks); the parser's _add_typedef_name / _add_identifier / push are those events; algebraic laws of the scope stack for all names and stacks (lookup after declare, other names untouched, fresh scope transparent, inner hides outer, undeclared is not a type, same-scope clash raises). The history-level statement is explored: generated declaration histories probed with sizeof(NAME) after every event against the generator's own C scoping, whole-parser model tied by correspondence.",
           "The lexer-lookahead interaction (registration visible from the second token after the declarator) is covered by correspondence only.", "Coq proof of scope-stack laws + history oracle + correspondence", "6/C04"),
- "C05": P("Proof (Coq), partial: kernel-computed theorems on the whole-pipeline model (dangling else, switch regrouping, for-declaration DeclList, pragma placement) and a refutation witness (static assertion as sub-statement). Statement trees over the full statement alphabet are explored with expected trees from an independent reading of C99 6.8, whole-parser model tied by correspondence.",
-          "Unbounded theorems about fix_switch_cases are not yet proved.", "Coq kernel-computed theorems on the parser model + correspondence + statement oracle", "6/C05"),
+ "C05": P("Proof (Coq): fix_switch_cases regroups a switch body of ANY length with label chains of ANY depth exactly as specified - statements under the nearest preceding label, consecutive labels siblings, nothing lost, duplicated or reordered (switch_regroup_correct); kernel-computed theorems on the whole-pipeline model (dangling else, switch regrouping, for-declaration DeclList, pragma placement) and a refutation witness (static assertion as sub-statement). Statement trees over the full statement alphabet are explored with expected trees from an independent reading of C99 6.8, whole-parser model tied by correspondence.",
+          "The statement productions themselves (dangling else, loop bodies, labels) are covered by correspondence and oracle.", "Coq kernel-computed theorems on the parser model + correspondence + statement oracle", "6/C05"),
  "C06": P("Proof (Coq), partial: lexing terminates within |text|+1 iterations for every text; the four crash classes found (and repaired by fix: commits) are kernel-computed theorems on the model. No-crash for the whole parser is not proved: it is explored exhaustively (all <= 2 / <= 3 token-class sequences after 7 prefixes, mutants, noise) with the exception class and message compared between model and implementation.",
           "RecursionError is the tolerated escape (model: fuel).", "Coq proof (lexer termination) + exhaustive short-sequence correspondence and outcome classification", "6/C06"),
  "C07": P("Proof (Coq), partial: the generator's precedence_map (regenerated) mirrors the parser's table operator by operator and both equal C99's levels. The round trip parse.generate.parse = parse and second-generation equality are decided by the direct oracle on generated programs, accepted mutants and the corpus, both generator configurations.",
           "CGenerator's visit_* methods are not modelled in Coq at this commit.", "Coq table theorems + round-trip oracle on the implementation", "6/C07"),
  "C09": P("Proof (Coq): progress of every token() iteration, termination within |text|+1 iterations, losslessness (segments concatenate to the input, every non-blank segment produces a token or an error, token spelling = consumed characters), longest match among fixed tokens and regex-vs-punctuator choice, for all strings; table theorems are recomputed on the tables regenerated from c_lexer.py. The hand-written lexer model is tied to CLexer by differential correspondence (exhaustive short strings, class-alphabet strings, rendered token sequences with directives).",
-          "Python re = backtracking priority semantics for the opcode subset (tested each run). Position exactness is checked by the round-trip oracle and correspondence, not yet by a theorem.", "Coq proof over regenerated lexer tables + model/code correspondence", "6/C09"),
+          "Python re = backtracking priority semantics for the opcode subset (tested each run). Column/line exactness: theorems for _match_token and blank/newline steps under the state-agreement invariant (C09_token_position); directive lines (#line re-basing) are covered by the round-trip oracle and correspondence.", "Coq proof over regenerated lexer tables + model/code correspondence", "6/C09"),
  "C10": P("Proof (Coq), partial: no rule matches the empty string; the order-sensitive facts of the regenerated rule table; every error rule has a message; constant typing (multi-character constants are int; suffix-free spellings are int; suffix forms by computation). The iff between well-formed C99 literals and literal tokens is explored exhaustively over all strings up to length 4/5 of a 24-character alphabet against an independent literal grammar, with the lexer model and the master regex tied by correspondence.",
           "C10_full (first_rule = spec_scan for all strings) is not proved.", "Coq table theorems + exhaustive bounded literal oracle + correspondence", "6/C10"),
  "C11": P("Proof (Coq): coordinate provenance for the whole parser model, for all inputs, by parametricity (every position / file name in any coordinate of the AST or in a ParseError location is one the parser was given). Exact token identity, presence of coordinates and error locations are explored with the renderer's recorded positions under layouts with linemarkers; model tied by correspondence with coordinates kept.",
@@ -36,13 +36,13 @@ CHECKS = {
           "Bytecode-level preemption under the GIL is outside the model (tested only).", "Coq table theorem + generic isolation theorem + scheduled-interleaving oracle", "6/C13"),
  "C14": P("Proof (Coq): the 49 checked-in classes equal the template image of the cfg, and the real _ast_gen.py output equals it too (complete finite domain); constructor order, attr_names, children order as readable corollaries; children() and iteration agree for every instance of every class with arbitrary field values. Node.show / NodeVisitor are hand-modelled and tied by correspondence on a class sweep (every subset of optional children absent) and random trees.",
           "tr_ast.py reads c_ast.py statically and aborts on any body outside the generated shape.", "Coq proof over the regenerated class table + correspondence", "6/C14"),
- "C15": P("Proof (Coq), partial: slots[:-2] is exactly the constructor's keyword set for all 49 classes; every slot is assigned by __init__; repr(str) never contains a raw newline. repr text is modelled and tied text-exactly; eval(repr), pickle (protocols 2..5) and deepcopy round trips with identity-disjointness and regenerated-text equality are executed on the implementation.",
-          "CPython's pickle/copy/eval are outside the model; C15_repr_eval (eval o repr = id) is not yet proved.", "Coq table theorems + repr correspondence + round-trip oracle", "6/C15"),
+ "C15": P("Proof (Coq): eval(repr(s)) = s for every Python string and every printability oracle (unrepr_repr_str); slots[:-2] is exactly the constructor's keyword set for all 49 classes; every slot is assigned by __init__; repr(str) never contains a raw newline. repr text is modelled and tied text-exactly; eval(repr), pickle (protocols 2..5) and deepcopy round trips with identity-disjointness and regenerated-text equality are executed on the implementation.",
+          "CPython's pickle/copy/eval are outside the model; the tree-level eval(repr(t)) = t is not yet proved (string level is).", "Coq table theorems + repr correspondence + round-trip oracle", "6/C15"),
  "C16": P("Proof (Coq), partial: the lexer's loop runs at most |text|+1 times; exponential growth of the nested compound-literal family is established by kernel-computed token-read counts on the model (k=1..6), linear families double exactly. The token-read counter of model and implementation must be equal on every input (correspondence); 25 scalable families are checked for at most doubling; lexer regex families under a wall-clock margin.",
           "sre's own cost is outside the model.", "Coq kernel-computed cost witnesses + counter correspondence + growth oracle", "6/C16"),
  "C17": P("Proof (Coq): for all inputs the whole parser model commutes with every renaming of positions and file names, hence two item sequences with the same kinds and spellings give the same outcome with provenance erased (parametricity). Layout variants and redundant parentheses are explored on the implementation, model tied by correspondence.",
           "That the lexer yields the same kinds/spellings for two layouts is C09's (round-trip oracle, correspondence).", "Coq parametricity theorem on the whole parser model + layout-variant oracle", "6/C17"),
- "C18": P("Proof (Coq), partial: an error item cannot be skipped at delivery (ParseError at exactly its position); a character that starts no token becomes an Illegal-character item at its line and column; kernel-computed rejections for the malformed classes. Single-bracket mutants, non-token injections and all unbalanced bracket strings (length <= 4/6) in three contexts are explored, model tied by correspondence.",
+ "C18": P("Proof (Coq): for ALL inputs, if parse() succeeds on the whole-parser model then every item the lexer produced was a token (no illegal character, malformed literal, comment or bad directive was reported and skipped) and every token was delivered - one invariant argument over all 71 mutually recursive productions and every helper (parse_ok_all_tokens, parse_ok_no_lexer_error); an error item cannot be skipped at delivery (ParseError at exactly its position); a character that starts no token becomes an Illegal-character item at its line and column; kernel-computed rejections for the malformed classes. Single-bracket mutants, non-token injections and all unbalanced bracket strings (length <= 4/6) in three contexts are explored, model tied by correspondence.",
           "parse = Ok implies balanced brackets is not yet proved for the whole grammar.", "Coq lemmas + kernel-computed witnesses + exhaustive bracket-mutant oracle", "6/C18"),
  "C19": P("Proof (Coq), partial: preprocess_file's command-line assembly and parse_file's pipeline (glue) for all arguments. Every header x dialect x argument form is executed through the real parse_file and compared with preprocessing and parsing by hand; the preprocessed texts go through the parser-model correspondence.",
           "cpp and the header files are outside any model; subsets/orders tested only.", "Coq theorems about the glue + exhaustive header sweep", "6/C19"),
